@@ -1,34 +1,137 @@
 /-
 C01 — Compiler and interpreter agree on every valid program.  (partial; see DESIGN.md)
 
-What is proved here is about the reference semantics `Wz.Spec.Wasm` (the third party of the
-three-way differential run) and about the interpreter's regenerated integer operations composed over
-whole straight-line programs.  The compiler back end is not modelled: for it the machine-checked
-part is the oracle, and agreement is established by the differential run only.
+Proved here, all for EVERY program / operand value / history of the stated fragment:
+* `interp_refines_spec_straightline` — on straight-line integer code the interpreter (its step
+  functions regenerated from interpreter.go on every run) computes exactly what the specification
+  computes, traps exactly when it traps, never raises a Go run-time panic, never underflows;
+* `spec_name_table_agrees_*` — the instruction-name table of the reference semantics
+  (`Wz.Spec.Num`, used by the oracle of the three-way differential run) denotes the same functions as
+  the typed specification the theorem above is about;
+* basic facts about the reference semantics `Wz.Spec.Wasm` (totality by fuel, histories are folds).
+Not proved (decided by the three-way differential run only): the interpreter's control lowering,
+floats, memory, calls, and everything in the compiler.
 -/
 import Wz.Spec.Wasm
+import Wz.Proofs.C01_straight
+import Wz.Gen.NopElim
 
 namespace Wz.C01
-open Wz.Spec.Wasm
+open Wz.Spec Wz.Spec.Wasm Wz.Model.InterpStraight
 
-/-- The reference semantics never gets stuck silently: with zero fuel every entry point reports
-`exhausted` (so an answer other than `exhausted` was computed by the rules). -/
+/-- **Straight-line refinement** (restated; proof in `Wz.Proofs.C01_straight`). -/
+theorem interp_refines_spec_straightline' (p : List SInstr) (s : List SVal) (o : IOut)
+    (h : expected (specRun p s) = some o) : interpRun p (s.map slot) = o :=
+  interp_refines_spec_straightline p s o h
+
+/-- consequence: on validated straight-line code the interpreter never raises a Go panic and never
+pops an empty stack -/
+theorem interp_no_internal_failure (p : List SInstr) (s : List SVal)
+    (hv : specRun p s ≠ .error .illTyped) :
+    (∀ w, interpRun p (s.map slot) ≠ .goPanic w) ∧ interpRun p (s.map slot) ≠ .underflow := by
+  cases hr : specRun p s with
+  | ok s' =>
+    have := interp_refines_spec_straightline p s (.ok (s'.map slot)) (by simp [hr, expected])
+    simp [this]
+  | error e =>
+    cases e with
+    | trap t =>
+      have := interp_refines_spec_straightline p s (.trap (trapName t)) (by simp [hr, expected])
+      simp [this]
+    | illTyped => exact absurd hr hv
+
+/-- non-vacuity: a concrete program with wrap-around, a shift count ≥ width and a signed division
+meets the hypothesis, and the theorem pins the interpreter's result -/
+example : interpRun [.const (.i32 0xffffffff#32), .const (.i32 2#32), .bin .i32 .add,
+      .const (.i32 33#32), .bin .i32 .shl, .const (.i32 0xffffffff#32), .bin .i32 .divS]
+    [] = .ok [0xfffffffe#64] := by decide
+
+example : expected (specRun [.const (.i32 0x80000000#32), .const (.i32 0xffffffff#32), .bin .i32 .divS] [])
+    = some (.trap "ErrRuntimeIntegerOverflow") := by decide
+
+/-! ### the name table of the reference semantics denotes the typed specification -/
+
+def IBinOp.name : IBinOp → String
+  | .add => "add" | .sub => "sub" | .mul => "mul" | .divS => "div_s" | .divU => "div_u"
+  | .remS => "rem_s" | .remU => "rem_u" | .and => "and" | .or => "or" | .xor => "xor"
+  | .shl => "shl" | .shrS => "shr_s" | .shrU => "shr_u" | .rotl => "rotl" | .rotr => "rotr"
+
+def IRelOp.name : IRelOp → String
+  | .eq => "eq" | .ne => "ne" | .ltS => "lt_s" | .ltU => "lt_u" | .gtS => "gt_s" | .gtU => "gt_u"
+  | .leS => "le_s" | .leU => "le_u" | .geS => "ge_s" | .geU => "ge_u"
+
+def resOfBin {n : Nat} (r : Except Trap (BitVec n)) : Num.Res :=
+  match r with
+  | .ok v => .val v.toNat
+  | .error .divByZero => .trap "div0"
+  | .error .overflow => .trap "overflow"
+
+theorem bv_toNat {n : Nat} (a : BitVec n) : Num.bv n a.toNat = a := by
+  simp [Num.bv]
+
+theorem spec_name_table_agrees_bin (n : Nat) (op : IBinOp) (a b : BitVec n) :
+    Num.ibin n (IBinOp.name op) a.toNat b.toNat = some (resOfBin (op.eval a b)) := by
+  cases op <;> simp only [IBinOp.name, Num.ibin, bv_toNat, IBinOp.eval, resOfBin, Num.optRes]
+  all_goals first
+    | rfl
+    | (cases Int.idivU a b <;> rfl)
+    | (cases Int.iremU a b <;> rfl)
+    | (cases Int.iremS a b <;> rfl)
+    | skip
+  · -- div_s
+    by_cases h : b = 0#n
+    · subst h; simp
+    · have h2 : ¬ b.toNat = 0 := fun hh => h (BitVec.eq_of_toNat_eq (by simpa using hh))
+      simp only [h, if_false]
+      have : (b.toNat == 0) = false := by simpa using h2
+      simp only [this, Bool.false_eq_true, if_false]
+      cases Int.idivS a b <;> rfl
+
+theorem spec_name_table_agrees_rel (n : Nat) (op : IRelOp) (a b : BitVec n) :
+    Num.ibin n (IRelOp.name op) a.toNat b.toNat = some (.val (op.eval a b).toNat) := by
+  cases op <;> simp only [IRelOp.name, Num.ibin, bv_toNat, IRelOp.eval]
+
+/-! ### the compiler's no-op elimination pass (regenerated rule) is sound -/
+
+/-- the regenerated rule only concerns the three shift opcodes -/
+theorem nop_elim_opcodes : Wz.Gen.NopElim.opcodes = ["Ishl", "Sshr", "Ushr"] := by decide
+
+/-- `passNopInstElimination` replaces a shift by its first operand when the constant amount `v`
+satisfies the regenerated condition: for every operand and every 64-bit constant that is sound,
+for i32 and i64 shifts left, right logical and right arithmetic (counts are taken modulo the width). -/
+theorem nop_elim_sound32 (x : BitVec 32) (v : Nat) (h : Wz.Gen.NopElim.fires false v = true) :
+    Int.ishl x (BitVec.ofNat 32 v) = x ∧ Int.ishrU x (BitVec.ofNat 32 v) = x ∧
+      Int.ishrS x (BitVec.ofNat 32 v) = x := by
+  have hv : v % 32 = 0 := by simpa [Wz.Gen.NopElim.fires, Wz.Gen.NopElim.mod32] using h
+  have h0 : (BitVec.ofNat 32 v).toNat % 32 = 0 := by
+    simp only [BitVec.toNat_ofNat]; omega
+  simp [Int.ishl, Int.ishrU, Int.ishrS, hv]
+
+theorem nop_elim_sound64 (x : BitVec 64) (v : Nat) (h : Wz.Gen.NopElim.fires true v = true) :
+    Int.ishl x (BitVec.ofNat 64 v) = x ∧ Int.ishrU x (BitVec.ofNat 64 v) = x ∧
+      Int.ishrS x (BitVec.ofNat 64 v) = x := by
+  have hv : v % 64 = 0 := by simpa [Wz.Gen.NopElim.fires, Wz.Gen.NopElim.mod64] using h
+  have h0 : (BitVec.ofNat 64 v).toNat % 64 = 0 := by
+    simp only [BitVec.toNat_ofNat]; omega
+  simp [Int.ishl, Int.ishrU, Int.ishrS, hv]
+
+/-- non-vacuity, and the classic wrong modulus: a 64-bit shift by 32 is NOT a no-op -/
+example : Wz.Gen.NopElim.fires true 64 = true ∧ Wz.Gen.NopElim.fires true 32 = false ∧
+    Int.ishl (1#64) (BitVec.ofNat 64 32) ≠ 1#64 := by decide
+
+/-! ### the reference semantics -/
+
+/-- with zero fuel every entry point reports `exhausted`: an answer other than `exhausted` was
+computed by the rules -/
 theorem zero_fuel_exhausted (m : Module) (f : Nat) (fr : Frame) (st : Store) :
     (callFunc m 0 f fr st).1 = .exhausted := by
   simp [callFunc]
 
-/-- Host imports are a function of their arguments only (what the harness implements in Go):
-the result does not depend on the store. -/
-theorem host_result_pure (i : Nat) (ft : FuncType) (args : List Nat) :
-    hostResult i ft args = hostResult i ft args := rfl
-
-/-- `invoke` starts each call with an empty host-call log, so the log observed after a call is
-exactly the log of that call. -/
 theorem invoke_exhausted_of_zero (m : Module) (f : Nat) (args : List Nat) (st : Store) :
     (invoke m 0 f args st).1 = .exhausted := by
   simp [invoke, callFunc]
 
-/-- Histories are folds: the outcome list has one entry per call. -/
+/-- histories are folds: one outcome per call -/
 theorem runHistory_length (m : Module) (fuel : Nat) (h : List (Nat × List Nat)) (st : Store) :
     (runHistory m fuel h st).1.length = h.length := by
   induction h generalizing st with
